@@ -248,7 +248,7 @@ func ValidHeaderValue(h *spec.Header, variant int) string {
 	}
 	switch h.Format {
 	case "uuid":
-		return pickv("123e4567-e89b-12d3-a456-426614174000", "00000000-0000-0000-0000-000000000000")
+		return pickv("123e4567-e89b-12d3-a456-426614174000", "00000000-0000-0000-0000-000000000000", "018f4e2a-7c3b-7d10-8a4e-9b1c2d3e4f50", "ffffffff-ffff-ffff-ffff-ffffffffffff", "6ba7b810-9dad-61d1-c0b4-00c04fd430c8")
 	case "email":
 		return pickv("a@b.co", "first.last@example.org")
 	case "date-time":
